@@ -3,6 +3,7 @@ package main
 // Symbolic executor / VC generator over go/ssa (NaiveForm).
 
 import (
+	"os"
 	"bytes"
 	"fmt"
 	"go/ast"
@@ -81,7 +82,7 @@ func calleeName(c *ssa.CallCommon) string {
 	}
 	switch f := c.Value.(type) {
 	case *ssa.Function:
-		return f.Name()
+		return plainName(f.Name())
 	case *ssa.Builtin:
 		return f.Name()
 	case *ssa.MakeClosure:
@@ -91,6 +92,14 @@ func calleeName(c *ssa.CallCommon) string {
 		return s
 	}
 	return "dyn"
+}
+
+// plainName strips the type arguments from the name of an instantiated generic function.
+func plainName(n string) string {
+	if i := strings.Index(n, "["); i > 0 {
+		return n[:i]
+	}
+	return n
 }
 
 func instrSubject(in ssa.Instruction, kind string) string {
@@ -908,10 +917,11 @@ func (st *State) specEnv(what string) *SpecEnv {
 			}
 		}
 	}
-	for i, fv := range fr.fn.FreeVars {
+	// captured variables are read through their cells (so that old(x) sees the entry value)
+	env.freeVars = map[string]*PtrInfo{}
+	for _, fv := range fr.fn.FreeVars {
 		if r, ok := fr.regs[fv]; ok && r.P != nil {
-			_ = i
-			env.vars[fv.Name()] = st.loadQuiet(r.P, nil)
+			env.freeVars[fv.Name()] = r.P
 		}
 	}
 	env.locals = st.localsEnv(func() *ssa.BasicBlock { return env.scope })
@@ -1135,6 +1145,11 @@ func (st *State) freshValLike(old Val, prefix string) Val {
 
 func (e *Engine) backEdge(st *State, li *loopInfo) {
 	fn := st.fr.fn
+	if st.dry == nil && fn == st.ctx.fn {
+		// vacuity guard: some path that goes round the loop must be satisfiable
+		st.ctx.loopCovers[li.ordinal] = append(st.ctx.loopCovers[li.ordinal],
+			&Obligation{Name: fmt.Sprintf("%s#cover[loop %d]", funcKey(fn), li.ordinal), Kind: "cover", Decls: len(st.ctx.decls), Asserts: st.pc, Goal: TFalse, Cover: true})
+	}
 	c := st.fr.contract
 	var ls *LoopSpec
 	if c != nil {
@@ -1277,7 +1292,26 @@ func (e *Engine) fork(st *State, cond Term, thenF, elseF func(*State)) {
 		return
 	}
 	st.ctx.paths++
+	if st.ctx.forkHist != nil {
+		st.ctx.forkHist[st.lastPos]++
+	}
 	if st.ctx.paths > st.ctx.maxPaths {
+		if st.ctx.forkHist != nil {
+			type kv struct {
+				k string
+				v int
+			}
+			var xs []kv
+			for k, v := range st.ctx.forkHist {
+				xs = append(xs, kv{k, v})
+			}
+			sort.Slice(xs, func(i, j int) bool { return xs[i].v > xs[j].v })
+			for i, x := range xs {
+				if i < 25 {
+					fmt.Fprintf(os.Stderr, "fork %5d at %s\n", x.v, x.k)
+				}
+			}
+		}
 		unsup("more than %d paths", st.ctx.maxPaths)
 	}
 	s2 := st.clone()
@@ -1295,6 +1329,11 @@ func (e *Engine) execFrom(st *State, b *ssa.BasicBlock, start int, prev *ssa.Bas
 	}
 	for i := start; i < len(b.Instrs); i++ {
 		next := i + 1
+		if st.ctx.forkHist != nil {
+			if p := st.posOf(b.Instrs[i]); p != "" {
+				st.lastPos = p
+			}
+		}
 		switch in := b.Instrs[i].(type) {
 		case *ssa.Phi:
 			idx := -1
@@ -1404,6 +1443,13 @@ func (st *State) protectCheck(in ssa.Instruction, p *PtrInfo) {
 			heldT := mv.L[0]
 			if _, isCh := sst.Field(i).Type().Underlying().(*types.Chan); isCh {
 				heldT = Select(st.heapTerm("CH#held", SBool, false), mv.L[0])
+			} else if _, isPtr := sst.Field(i).Type().Underlying().(*types.Pointer); isPtr && mv.P != nil {
+				// the lock is reached through a pointer field (*sync.Mutex / *sync.RWMutex)
+				lv := st.loadQuiet(mv.P, nil)
+				heldT = lv.L[0]
+				if len(lv.L) == 2 && lv.L[1].Sort == SInt {
+					heldT = Or(lv.L[0], Gt(lv.L[1], I(0)))
+				}
 			}
 			st.oblige(in, "protect", Or(heldT, Gt(p.Ref, a0)), fmt.Sprintf("%s.%s is accessed only while %s is held", tn, fname, mu))
 			return
